@@ -9,20 +9,20 @@ hook_commits = subprocess.check_output("git -C /repo log --format='%h %s' | grep
 # id -> (category, text, note, technique, design_ref)
 CLAIMS = {
     "C01": ("proof",
-            "Coq: the read path is proved for every well-formed tree (lookups = association in the flattened sorted list, cursor = "
-            "flatten: SearchFacts/CursorFacts/SeekFacts), the page codec round-trips (CodecFacts); the write path is proved at node level "
-            "(EngineFacts: leaf insert / delete = the reference map's insert / remove, merge and split keep every entry in order), at tree "
-            "level (EngineModifyFacts: put / delete on any well-formed overlay tree), for the whole operation sequence of a transaction "
-            "before commit (EnginePathFacts: the overlay's meaning is sem_tx of the operations; SpecPathFacts: sem_tx = the handle-based "
-            "reference machine), for rebalance (EngineRebalanceFacts: views unchanged) and for spill of one tree (EngineSpillFacts / "
-            "EngineBridgeFacts: the pages written hold exactly the view, on free pages); the assembly through nested spill and commit "
-            "into one theorem over run_tx (DESIGN Appendix K) is NOT finished, so the lift to whole transactions is validated per commit on the real files by the extracted Gallina decoder "
-            "(inv_check + contents = reference), every call is compared with the extracted reference map, the engine model must reproduce each "
-            "committed file page for page, and the engine model alone is searched against the reference over exhaustive shape families "
-            "with hits replayed on the library (C01_partial in DESIGN.md).",
-            "trusted: Coq kernel + vm_compute, translator gen_consts.py, extraction (ExtrOcamlBasic only), monitor.ml, Rust harness, "
-            "generators; the B+tree write algorithms are modelled only through their observable results and decoded files",
-            "Coq theorems (read path, codec) + differential correspondence against the extracted reference and decoder", "6/C01, 10"),
+            "Coq: (read path) lookups / scans / seeks on every well-formed tree = the sorted association list, page codec round trip; "
+            "(write path, engine model Engine.v) EngineRefines.run_tx_meaning: from a committed state satisfying the strict tree invariant "
+            "and the allocation invariant, a completed transaction's committed meaning is the functional semantics sem_tx of its "
+            "operations, for every operation list, nested buckets, spill order and tree shape (side conditions: the model's fuels -- paths "
+            "< 8, new trees of height <= 64); sem_tx = the handle-based reference machine (SpecPathFacts); the tree invariant is "
+            "re-established; the engine's thresholds and sizes are pinned to the constants generated from the source. The engine MODEL "
+            "is tied to the library by correspondence: it must reproduce every committed file page for page, every call is compared with "
+            "the extracted reference, every committed file is decoded by the Gallina decoder (inv_check + contents), and the model alone is "
+            "searched against the reference over exhaustive shape families with hits replayed on the library.",
+            "C01_partial: the allocation invariant of the NEW state (free / pending ids disjoint from reachable pages) is a decidable "
+            "hypothesis of the history-level theorem, evaluated on every state the model-side search visits, not yet proved; trusted: Coq "
+            "kernel + vm_compute, translator gen_consts.py, extraction (ExtrOcamlBasic only), monitor.ml, Rust harness, generators; the "
+            "hand-written statements Spec.v / EngineAbs.v / SpecPath.v",
+            "Coq refinement theorem for the engine model + page-for-page correspondence model <-> library + differential against the extracted reference", "6/C01, 10, App. K"),
     "C02": ("proof",
             "Coq (CrashFacts): for the commit I/O order the translator reads from write_data, every kill prefix and every power-loss "
             "image (any subset of un-synced writes, torn writes, torn header invalid) selects the old or the new header with all of its "
